@@ -10,6 +10,7 @@ import (
 	"fmt"
 	"net"
 	"strings"
+	"sync"
 	"syscall"
 	"time"
 
@@ -34,6 +35,7 @@ type remoteRunner struct {
 	stopping bool          // true if Stop() has been called
 	givenup  bool          // true if timeoutTERM has been reached
 	closed   chan struct{} // channel is closed if Close() has been called
+	closing  sync.Once
 }
 
 // newRemoteRunner returns a new remoteRunner. Caller should ensure
@@ -105,9 +107,10 @@ func (rr *remoteRunner) Start() {
 }
 
 // Close abandons the remote process (if any) and releases
-// resources. Close must not be called more than once.
+// resources. Close may be called more than once (worker.Close and a
+// probe of a disappearing instance can both reach it).
 func (rr *remoteRunner) Close() {
-	close(rr.closed)
+	rr.closing.Do(func() { close(rr.closed) })
 }
 
 // Kill starts a background task to kill the remote process, first
